@@ -223,6 +223,8 @@ func cmdVerify(args []string) int {
 	tmo := fs.Int("t", 10, "solver timeout (s)")
 	keep := fs.Bool("keep", false, "keep failing scripts in /verif/.work/failed")
 	prop := fs.String("p", "", "only obligations of this property")
+	paths := fs.Bool("paths", false, "for failing obligations, report which control-flow paths fail")
+	only := fs.String("o", "", "only obligations whose name contains this")
 	fs.Parse(args)
 	if err := initWorkDir(); err != nil {
 		fmt.Fprintln(os.Stderr, err)
@@ -252,6 +254,15 @@ func cmdVerify(args []string) int {
 		}
 		obls = f
 	}
+	if *only != "" {
+		var f []*Obligation
+		for _, o := range obls {
+			if strings.Contains(o.Name, *only) {
+				f = append(f, o)
+			}
+		}
+		obls = f
+	}
 	t0 := time.Now()
 	res := solveAll(obls, *tmo, 1, *verbose)
 	bad := 0
@@ -261,6 +272,9 @@ func cmdVerify(args []string) int {
 		if r.R.Status != "unsat" && r.R.Status != "bounded" {
 			bad++
 			fmt.Printf("FAILED %-8s %s  [%s] %s\n    %s\n    tried: %s\n", r.R.Status, r.O.Name, r.O.Pos, r.O.Kind, r.O.Desc, strings.Join(r.R.Tried, " "))
+			if *paths && r.O.fv != nil && r.O.fv.fn != nil {
+				explainPaths(r.O)
+			}
 			if *keep {
 				os.MkdirAll("/verif/.work/failed", 0o755)
 				os.WriteFile(filepath.Join("/verif/.work/failed", sanitize(r.O.Name)+".smt2"), []byte(r.Scr), 0o644)
@@ -329,4 +343,59 @@ func writeJSON(path string, v interface{}) error {
 	}
 	os.MkdirAll(filepath.Dir(path), 0o755)
 	return os.WriteFile(path, append(b, '\n'), 0o644)
+}
+
+// explainPaths: debugging aid — try the obligation separately on every acyclic path
+// (back to the entry or the enclosing loop head) and print which ones do not discharge.
+func explainPaths(o *Obligation) {
+	fv := o.fv
+	var paths [][]int
+	var walk func(b int, acc []int)
+	walk = func(b int, acc []int) {
+		if len(paths) > 200 {
+			return
+		}
+		acc = append([]int{b}, acc...)
+		blk := fv.fn.Blocks[b]
+		if b == 0 || fv.loops[blk] != nil {
+			paths = append(paths, acc)
+			return
+		}
+		n := 0
+		for _, p := range blk.Preds {
+			if fv.isBackEdge(p, blk) {
+				continue
+			}
+			if _, done := fv.blockEnd[p]; !done {
+				continue
+			}
+			n++
+			walk(p.Index, acc)
+		}
+		if n == 0 {
+			paths = append(paths, acc)
+		}
+	}
+	walk(o.Blk, nil)
+	type res struct {
+		path []int
+		st   string
+	}
+	out := make([]res, len(paths))
+	var jobs []job
+	for i, p := range paths {
+		i, p := i, p
+		var gs []Term
+		for k := 0; k+1 < len(p); k++ {
+			gs = append(gs, sanitize(fmt.Sprintf("e_b%d_b%d", p[k], p[k+1])))
+		}
+		jobs = append(jobs, job{name: fmt.Sprintf("%s.path%d", o.Name, i), script: o.scriptWith(and(gs...), -1), need: 1, tmo: 5, done: func(r *SolveResult) { out[i] = res{p, r.Status} }})
+	}
+	runJobs(jobs, 16)
+	for _, r := range out {
+		if r.st != "unsat" {
+			fmt.Printf("      path %v: %s\n", r.path, r.st)
+		}
+	}
+	fmt.Printf("      (%d paths tried)\n", len(paths))
 }
